@@ -34,9 +34,24 @@ def run(c):
         "sender, a refusal when EVERY reading entitles it; the Lean model mirrors the code (the whole step decides)",
         "SASL PLAIN sessions of the identity family run with the endpoint's auth_map_normalize and the check's auth_normalize set to the same "
         "setting, without auth_map; the credential store gives every account name its own password (C14 owns the authentication decision)",
+        "table.email_with_domain: the monitor's reference is written from the module's documentation (the WHOLE key is the local part of every "
+        "value, quoted when it holds a space or an RFC 5322 special other than the dot); address.QuoteMbox is C17's model on the Lean side",
+        "neighbour sessions: the second check of the group and the order in which the two checks finish a stage are scripted by the harness "
+        "(the later one starts its work after the method of the earlier one returned and its goroutine had time to report); nothing is asserted "
+        "about time, a wait that runs out is counted and the exchange is not compared with the model; the full check runner is C06's property, "
+        "C15 models the decision of runAndMergeResults only (mergeResults)",
     ]
     return c.finish(
-        rule="user_to_email / prepare_email backed by the REAL table.chain built through the configuration path (1-3 steps, step / optional_step, "
+        rule="authorize_sender in a check group next to a SECOND check (real msgpipeline behind a real endpoint): the neighbour answers quarantine / "
+        "reject / a reason without action / nothing at the connection, sender, recipient or body stage or at every stage, and finishes the stage "
+        "before or after authorize_sender (both orders steered by the harness): a delivered message must still come from an entitled client "
+        "(C15/session-envelope-sender-not-entitled, C15/header-author-not-entitled/session), the neighbour's own verdict must survive "
+        "(C15/session-quarantine-verdict-lost, C15/session-delivered-though-a-check-rejected) and the outcome of the stage is compared with the "
+        "model's mergeResults (`C15 merge`); user_to_email = the REAL table.email_with_domain (directly, and as the last step of a table.chain "
+        "after an accounts table / email_localpart / identity) with 1-3 domains and account names of mixed kinds: plain names, names that are "
+        "addresses of another realm (local part = the name of another account), names that need quoting; senders = the local part of the login "
+        "name under a configured domain, the login name itself, other names; reference = the whole name is the local part; "
+        "user_to_email / prepare_email backed by the REAL table.chain built through the configuration path (1-3 steps, step / optional_step, "
         "static / single-valued / failing / identity / email_localpart step tables over one small pool of names: 0-3 values per key, values that are "
         "keys of the same and of the next step), senders drawn from what the composition of the step tables gives the user, from what a step applied "
         "more than once would give, and from the rest; reference = relational composition computed by the harness "
